@@ -201,7 +201,7 @@ def mk_doc(ctx: Ctx, trig: set[str]) -> specgen.Doc:
     kinds = ["sse", "binary", "text", "ndjson"]
     d = specgen.generate(ctx.rng, allow=trig, prof={"ops": (2, 5), "p_param": 0.3, "p_body": 0.2, "schemas": (2, 5), "p_multi2xx": 0.5,
                                                     "p_stream": 0.3, "stream_kinds": kinds, "p_nullable_response": 0.3, "json_media_variants": True,
-                                                    "p_multi_response_media": 0.25,
+                                                    "p_multi_response_media": 0.25, "p_component_refs": 0.3,
                                                     "styles": ["camel", "snake", "kebab", "keywordish"], "p_self_ref": 0.0, "p_union": 0.0})
     return d
 
